@@ -6,3 +6,16 @@ claim("C11", "model_checking",
       "simulated operation histories are replayed on the real CLI with SQLite, comparing status/revisions/journal after every operation.",
       "Trusted: the reference was written from documentation; equal-width versions; SHA-256 injective; the harness's in-memory revision store and the independent SQLite reader.",
       "3 C11")
+claim("C09", "model_checking",
+      "TLA+ model of Executor.Execute (Apply.tla) checked exhaustively by TLC; every fault plan replayed on the real Executor and its call trace validated by TLC (ApplyMonitor.tla property layer, ApplyTrace.tla conformance layer)",
+      "TLC checks RevNotAhead / InOrder / NoSkip / RepeatBound / ExactlyOnce / CleanRunCompletes on every state of Apply.tla for all directory shapes up to 3x3 with up to 2 (thorough: 3) "
+      "faults at any ExecContext or WriteRevision call. The same space is enumerated on the real Executor.ExecuteN with scripted stores; TLC evaluates the property formulas after every "
+      "recorded call (verdict) and checks that each execution is a behaviour of Apply.tla (conformance).",
+      "Trusted: the scripted Driver/RevisionReadWriter doubles (journal append, revision upsert); SHA-256 injective; bounds as stated in the evidence file.",
+      "3 C09")
+claim("C12", "model_checking",
+      "Apply.tla with environment Edit actions checked by TLC; every (length<=5, progress k, edit kind, index) scenario replayed on the real Executor and on the CLI/SQLite, traces validated by TLC",
+      "TLC checks Refusal / NoSpuriousRefusal / CleanRunCompletes on Apply.tla with every edit of a partially applied file between runs. The harness enumerates the same scenarios on the real "
+      "Executor (and the real CLI on SQLite with --tx-mode none); ApplyMonitor.tla decides refusal without any statement and with untouched history, no crash, and tail resume with a completed revision.",
+      "Trusted: scripted stores at API level, the independent SQLite reader at CLI level; the directory is re-hashed after each edit; SHA-256 injective.",
+      "3 C12")
